@@ -61,6 +61,9 @@ func (y *c14Yielder) hook(point string) {
 
 var c14HookMu sync.Mutex
 
+// c14Deadline bounds one concurrent phase.
+const c14Deadline = 120 * time.Second
+
 func setYieldHooks(h func(string)) {
 	filterlist.VerifYieldHook = h
 	rules.VerifYieldHook = h
@@ -124,7 +127,14 @@ func checkC14(c c14Case, rec *Rec) *Violation {
 		}(g)
 	}
 	close(start)
-	wg.Wait()
+	finished := make(chan struct{})
+	go func() { wg.Wait(); close(finished) }()
+	select {
+	case <-finished:
+	case <-time.After(c14Deadline):
+		// the whole sequential run takes milliseconds: this is a dead-lock, not slowness
+		return viol(id, "C14:concurrent-queries-do-not-return", "%d goroutines running %d queries did not finish within %v (sequentially the same queries take milliseconds)", G, len(c.Queries), c14Deadline)
+	}
 	setYieldHooks(nil)
 	for g, p := range panics {
 		if p != nil {
